@@ -194,13 +194,44 @@ def _protocol_class():
     return StreamReaderBufferedProtocol
 
 
+class FlowTransport(StubTransport):
+    """stub transport that honours pause_reading()/resume_reading() (mode 5)"""
+
+    def __init__(self):
+        super().__init__()
+        self.paused = False
+
+    def pause_reading(self):
+        assert not self.paused
+        self.paused = True
+
+    def resume_reading(self):
+        assert self.paused
+        self.paused = False
+
+
+_small_cls = None
+
+
+def _small_protocol_class():
+    """the real protocol with a 2 KiB buffer: high-water mark 1024, low-water mark 256"""
+    global _small_cls
+    if _small_cls is None:
+        class SmallBufferProtocol(_protocol_class()):
+            __slots__ = ()
+            max_size = 2048
+        _small_cls = SmallBufferProtocol
+    return _small_cls
+
+
 class ProtoDriver:
     """Plays the loop, the transport and the consumer around one real protocol object."""
 
-    def __init__(self, loop):
+    def __init__(self, loop, flow=False):
         self.loop = loop
-        self.proto = _protocol_class()(loop=loop)
-        self.transport = StubTransport()
+        self.flow = flow
+        self.proto = (_small_protocol_class() if flow else _protocol_class())(loop=loop)
+        self.transport = FlowTransport() if flow else StubTransport()
         self.proto.connection_made(self.transport)
         self.env_exc = EnvError(errno.EPIPE, "scripted connection loss")
         self.env_eof = self.env_lost = False
@@ -273,7 +304,7 @@ class ProtoDriver:
         return [8]
 
     def data(self, payload):
-        if self.env_lost or self.env_eof or not payload:
+        if self.env_lost or self.env_eof or not payload or (self.flow and self.transport.paused):
             return DISABLED
         buf = self.proto.get_buffer(-1)
         view = memoryview(buf)
@@ -293,7 +324,7 @@ class ProtoDriver:
         return [4, n, room]
 
     def eof(self):
-        if self.env_lost:
+        if self.env_lost or (self.flow and self.transport.paused):
             return DISABLED
         self.env_eof = True
         self.proto.eof_received()
@@ -361,7 +392,7 @@ class ProtoDriver:
             self.settle(rounds=3)
 
 
-def with_driver(fn):
+def with_driver(fn, flow=False):
     """Run fn(driver) inside a callback of a running StepLoop (so eager tasks start at once); return its result."""
     box = {}
     with _step_loop() as loop:
@@ -369,7 +400,7 @@ def with_driver(fn):
             loop.manual = True
             drv = None
             try:
-                drv = ProtoDriver(loop)
+                drv = ProtoDriver(loop, flow=flow)
                 box["value"] = fn(drv)
             except BaseException as exc:   # noqa: BLE001 - re-raised outside the loop
                 box["error"] = exc
@@ -394,6 +425,48 @@ def replay(labels):
         obs = [drv.do(lab) for lab in labels]
         return [obs, bytes(drv.delivered), bytes(drv.returned)]
     return with_driver(body)
+
+
+def replay_flow(labels):
+    """mode 5: small buffer, flow control honoured; -> [[obs, paused] per label, delivered, returned], (max, high, low)"""
+    def body(drv):
+        low, high = drv.proto._get_read_buffer_limits()
+        out = []
+        for lab in labels:
+            o = drv.do(lab)
+            out.append([o, int(drv.transport.paused)])
+        return [out, bytes(drv.delivered), bytes(drv.returned)], [drv.proto.max_size, high, low]
+    return with_driver(body, flow=True)
+
+
+def _flow_cases(thorough, rng):
+    sizes = [100, 300, 300, 600, 700, 1000, 1100, 2100]
+    ks = [0, 50, 200, 500, 900, 3000]
+    weights = [(L_RECV, 4), (L_INTO, 4), (L_DATA, 7), (L_EOF, 1), (L_LOST, 1), (L_CANCEL, 2), (L_WAKE, 5), (L_TURN, 5)]
+    kinds = [k for k, w in weights for _ in range(w)]
+    for _ in range(1200 if thorough else 240):
+        labels, pos = [], 0
+        for _ in range(rng.randint(6, 16)):
+            k = rng.choice(kinds)
+            if k in (L_RECV, L_INTO):
+                labels.append([k, rng.choice(ks)])
+            elif k == L_DATA:
+                n = rng.choice(sizes)
+                labels.append([k, bytes((pos + i) % 251 + 1 for i in range(n))])
+                pos += n
+            elif k == L_LOST:
+                labels.append([k, rng.randint(0, 1)])
+            else:
+                labels.append([k])
+        labels += [[L_TURN], [L_WAKE], [L_RECV, 4000], [L_TURN], [L_WAKE], [L_DATA, bytes(range(1, 200))], [L_TURN], [L_WAKE]]
+        out, params_ = replay_flow(labels)
+        _cache["f" + repr(labels)] = out
+        paused_seen = any(o[1] for o in out[0])
+        resumed = any(a[1] and not b[1] for a, b in zip(out[0], out[0][1:]))
+        tags = ["flow-control"] + (["paused"] if paused_seen else []) + (["resumed"] if resumed else []) + \
+            (["truncated-read-event"] if any(o[0] and o[0][0] == 4 and o[0][1] < len(lab[1])
+                                             for o, lab in zip(out[0], labels) if lab[0] == L_DATA) else [])
+        yield dict(input=[5, 2, params_, labels], tags=tags, nontrivial=paused_seen)
 
 
 # ------------------------------------------------------------------------------------------------ the property
@@ -543,6 +616,14 @@ def run_impl(inp):
         return run_blocking(inp[1], inp[2], inp[3], inp[4])
     if inp[0] == 4:
         return run_blocking(inp[1], inp[2], inp[3], inp[4], buffered=True)
+    if inp[0] == 5:
+        key = "f" + repr(inp[3])
+        if key in _cache:
+            return _cache.pop(key)
+        out, params_ = replay_flow(inp[3])
+        if list(params_) != list(inp[2]):
+            raise RuntimeError(f"buffer limits changed: {params_} vs {inp[2]}")
+        return out
     if inp[0] == 3:
         key = "e" + repr(runner_norm(inp[4]))
         if key in _cache:
@@ -688,6 +769,7 @@ def cases(tier, rng, escalate):
         _cache[repr(labels)] = res
         yield dict(input=[0, 2, labels], tags=["proto", "random"] + tags, nontrivial=nontrivial)
     yield from _mode2_cases(thorough, rng)
+    yield from _flow_cases(thorough, rng)
     for inp, origin in _blocking_cases(thorough, rng):
         has_timeout = any(e[0] == 2 for e in inp[4]) or any(inp[3])
         yield dict(input=inp, tags=["blocking", origin] + (["timeout-event"] if has_timeout else []), nontrivial=has_timeout)
@@ -1334,10 +1416,12 @@ def run_blocking(size, bufsize, calls, events, buffered=False):
             if ev[0] == 1:
                 return b""
             assert 0 < len(ev[1]) <= bufsize_, "a transport returns between 1 and bufsize bytes"
+            run_blocking.handed += bytes(ev[1])
             if ev[2] and timeout != float("inf"):
                 clock[0] += timeout
             return bytes(ev[1])
 
+    run_blocking.handed = b""
     saved = _time.perf_counter
     _time.perf_counter = lambda: clock[0]
     try:
@@ -1406,7 +1490,7 @@ def blocking_failure(inp):
     the TimeoutErrors in between."""
     _, size, bufsize, calls, events = inp[:5]
     results = run_blocking(size, bufsize, calls, events, buffered=(inp[0] == 4))
-    consumed = b"".join(e[1] for e in events if e[0] == 0)
+    consumed = run_blocking.handed          # what the scripted transport really handed over
     got = b"".join(r[1] for r in results if r[0] == 0)
     if not consumed.startswith(got):
         return f"UNEXPLAINED: blocking receive returned {got!r}, the transport delivered {consumed!r}"
